@@ -8,6 +8,7 @@ import (
 	"math"
 	"os"
 	"path/filepath"
+	"sort"
 	"strings"
 	"sync"
 
@@ -20,14 +21,14 @@ import (
 
 // Scenario is one transformation request.
 type Scenario struct {
-	Kind       string       `json:"kind"`
-	Src        string       `json:"src"`
-	Dst        string       `json:"dst"`
-	DstGeo     bool         `json:"dst_geo"`
-	DstToMeter float64      `json:"dst_to_meter"`
-	Pts        [][2]float64 `json:"pts"`
+	Kind       string        `json:"kind"`
+	Src        string        `json:"src"`
+	Dst        string        `json:"dst"`
+	DstGeo     bool          `json:"dst_geo"`
+	DstToMeter float64       `json:"dst_to_meter"`
+	Pts        [][2]float64  `json:"pts"`
 	Out        []*[2]float64 `json:"out,omitempty"` // proj4js results (recorded corpus)
-	Label      string       `json:"label"`
+	Label      string        `json:"label"`
 }
 
 const wgs84Geo = "+proj=longlat +datum=WGS84 +no_defs"
@@ -339,8 +340,9 @@ func GenChain(r *crsgen.R, fwd func(s *Scenario) []*[2]float64) []Scenario {
 					ok = false
 				}
 			}
-			if !ok || d2.String() == d.String() || (nearEquator && sphericalTM(d2)) {
-				// identical definitions: the port returns the identity transformer (C20) while
+			if !ok || sameClauses(d2.String(), d.String()) || (nearEquator && sphericalTM(d2)) {
+				// identical definitions (the same clauses, in whatever order and spacing the two
+				// texts spell them): the port returns the identity transformer (C20) while
 				// proj4js runs inverse and forward series, which differ by their own truncation
 				// error (0.33 mm observed for UTM 3 degrees from the central meridian)
 				continue
@@ -557,4 +559,21 @@ func runEllipsoidPair(c *core.Ctx, idx int) {
 			}
 		}
 	}
+}
+
+// sameClauses reports whether two PROJ.4 texts consist of the same clauses, whatever their order
+// and the blanks between them.
+func sameClauses(a, b string) bool {
+	fa, fb := strings.Fields(a), strings.Fields(b)
+	if len(fa) != len(fb) {
+		return false
+	}
+	sort.Strings(fa)
+	sort.Strings(fb)
+	for i := range fa {
+		if fa[i] != fb[i] {
+			return false
+		}
+	}
+	return true
 }
